@@ -149,6 +149,16 @@ pub fn cmd_ciphers(args: &[String]) -> i32 {
                 p0 += step;
             }
         }
+        // the same tokens in another order (adjacent tokens swapped, at every position): an order is part of a name
+        {
+            let toks: Vec<&str> = n.split('_').collect();
+            for i in 0..toks.len().saturating_sub(1) {
+                if toks[i] == toks[i + 1] { continue; }
+                let mut t = toks.clone();
+                t.swap(i, i + 1);
+                qs.push(t.join("_"));
+            }
+        }
         // prefixes and tokens repeated or stripped
         qs.push(format!("TLS_{}", n));
         qs.push(format!("TLS_TLS_{}", n));
@@ -265,6 +275,16 @@ pub fn cmd_ext(args: &[String]) -> i32 {
                 ext_code(&calls::call(name, &a, &input).unwrap(), ty, payload.len(), false)
             });
             writeln!(out, "{}", json!({"kind": "dispatch", "which": which, "plen": payload.len(), "trail": 0, "rle": rle_strings(codes)})).unwrap();
+        }
+        // payloads shaped like the contents of OTHER extensions (a 16-bit list of pairs, a one-byte list, a name list): an unassigned or
+        // differently typed code point does not borrow a neighbour's decoder
+        for payload in [vec![0u8, 4, 4, 3, 8, 4], vec![0, 0], vec![2, 3, 4], vec![0, 5, 0, 0, 2, 104, 50]] {
+            let codes = (0..=65535u32).map(|ty| {
+                let mut input = vec![(ty >> 8) as u8, ty as u8, 0, payload.len() as u8];
+                input.extend_from_slice(&payload);
+                ext_code(&calls::call(name, &a, &input).unwrap(), ty, payload.len(), false)
+            });
+            writeln!(out, "{}", json!({"kind": "dispatchp", "which": which, "plen": payload.len(), "trail": 0, "payload": payload, "rle": rle_strings(codes)})).unwrap();
         }
         // the same extension followed by another one (what a dispatcher sees inside a list): verdict and consumption are the same
         let codes = (0..=65535u32).map(|ty| {
